@@ -275,19 +275,51 @@ def zero_means_end(ctx, P):
     ctx.floor(P + ':S09-6:floor', 'non-terminal state arms of Read impls that size their result from a stage buffer', n, 5)
 
 
+def interrupted_safe_fill(ctx, P):
+    """The library drives its own generators with std::io::copy (MessageBuilder::to_writer, encrypt_write, SignatureConfig hashing),
+    and io::copy retries a read that failed with ErrorKind::Interrupted.  util::fill_buffer accumulates several source reads into a
+    local fill: if it returned on Interrupted the octets collected so far would be dropped and the retry would continue behind them
+    (a shorter / inconsistent stream reported as success).  It therefore has to retry the source read itself."""
+    drivers = sorted(p for p, r in ctx.f.bodies.items() if '::tests::' not in p and ctx.wrap(r).calls(r'std::io::copy$'))
+    for d in drivers:
+        ctx.functions.add(d)
+    b = ctx.body('util::fill_buffer')
+    if b is None:
+        return
+    src = call_blocks(b, r'io::Read::read$')
+    sw = [i for i, t in b.switches() if has_origin(b.switch_origins(i), r'call:std::io::Error::kind$') and has_origin(b.switch_origins(i), r'agg:std::io::ErrorKind::Interrupted$|const:.*ErrorKind')]
+    loops_back = [g for g in sw if any(any(s_ in b.reach_from([j]) for s_ in src) and not set(b.returns()) <= b.reach_from([j], removed=frozenset(src)) for j, _ in b.succ(g))]
+    ctx.check(P + ':S09-5:fill-retries-interrupted', 'R-dom', 'util::fill_buffer retries a source read that failed with ErrorKind::Interrupted (the crate\'s %d io::copy drivers retry such reads; a partial fill must not be dropped)' % len(drivers),
+              bool(src) and bool(loops_back) and len(drivers) >= 3, function=b.path, table=drivers,
+              missing=None if loops_back else 'no branch on err.kind() == Interrupted that goes back to the source read: an EINTR in the middle of a fill drops the octets already read, io::copy retries, and the builder panics or reports success for a damaged stream')
+
+
 def fill_loops(ctx, P):
+    """An error of the source never flows into an Ok result of a fill loop unless a NEW source call succeeded in between: from the
+    Err edge of the branch on the source call's result, no successful exit is reachable without passing a source call again (the
+    error is returned, or - for Interrupted - the read is retried)."""
+    from rules.common import edge_variants, enum_switch_info
     for path in ('util::fill_buffer', 'util::fill_buffer_bytes'):
         b = ctx.body(path)
         if b is None:
             continue
         src = b.calls(r'io::Read::read$|io::BufRead::fill_buf$')
+        srcb = [i for i, t in src]
         oks = ok_exit_blocks(b)
-        gs = [g for g, _ in guard_switches(b, oks, [r'call:.*(io::Read::read|io::BufRead::fill_buf)$'])]
         bad = None
-        for i, t in src:
-            p_ = b.find_path(t['t'], set(oks), removed=frozenset(gs))
-            if p_ is not None:
-                bad = p_
-        e2o = errs.err_to_ok(b)
-        ctx.check('%s:S09-5:fill-propagates:%s' % (P, path), 'R-dom', '%s returns Ok only after the source call succeeded (its error is propagated, never turned into a short count)' % path,
-                  bool(src) and bool(gs) and bad is None and not e2o, function=path, witness=fmt_path(b, bad) if bad else None)
+        nerr = 0
+        for g, t in b.switches():
+            info = enum_switch_info(b, g)
+            if not info or not (info[0].endswith('Result') or info[0].endswith('ControlFlow')):
+                continue
+            if not has_origin(b.switch_origins(g), r'call:.*(io::Read::read|io::BufRead::fill_buf)$'):
+                continue
+            for j, _ in b.succ(g):
+                vs = edge_variants(b, g, j) or []
+                if vs and set(vs) <= {'Err', 'Break'}:
+                    nerr += 1
+                    w = b.find_path(j, set(oks), removed=frozenset(srcb))
+                    if w is not None:
+                        bad = w
+        ctx.check('%s:S09-5:fill-propagates:%s' % (P, path), 'R-dom', '%s: an error of the source call reaches no Ok result except through a new source call (returned, or retried for Interrupted); never turned into a short count' % path,
+                  bool(src) and nerr >= 1 and bad is None, function=path, witness=fmt_path(b, bad) if bad else None)
